@@ -240,6 +240,11 @@ func vsErrClass(err error) string {
 	if err == nil {
 		return "ok"
 	}
+	if strings.Contains(err.Error(), "overlaps with existing data") {
+		// a commit refused because its range runs into another domain (and the same error
+		// repeated by later calls on the failed writer)
+		return "conflict"
+	}
 	return "err:" + err.Error()
 }
 
